@@ -1,6 +1,7 @@
 """C06 - smoothers keep linear series, commute with offsets and time reversal."""
 from __future__ import annotations
 
+import sys
 import numpy as np
 from hypothesis import strategies as st
 
@@ -251,7 +252,8 @@ def sub_accessor_linear(case):
     arr = line.copy()
     arr[~valid] = nd
     cube = arr.astype(dt).reshape(1, 1, n)
-    da = xr.DataArray(cube, dims=("y", "x", "time"), coords={"time": pd.date_range("2010-01-01", periods=n, freq="10D")}).transpose(*case["dims"])
+    da = xr.DataArray(cube, dims=("y", "x", "time"), coords={"time": pd.date_range("2010-01-01", periods=n, freq="10D")},
+                      attrs={} if case.get("attr_nodata") is None else {"nodata": case["attr_nodata"]}).transpose(*case["dims"])
     prm = _prm(case)
     kw = {"p": prm["p"]} if "p" in prm else {}
     op = case["op"]
@@ -369,7 +371,8 @@ def run(ctx):
             a, b = 0, draw(st.integers(lo, hi))
             line = [b] * n
         used = {line[i] for i in idx}
-        nd = next(c for c in ([hi, lo, hi - 1, lo + 1] + list(range(lo, hi))) if c not in used)
+        zero_first = [0] if lo <= 0 <= hi and draw(st.booleans()) else []
+        nd = next(c for c in (zero_first + [hi, lo, hi - 1, lo + 1] + list(range(lo, hi))) if c not in used)
         case = {"n": n, "a": a, "b": b, "valid": g["valid"], "dtype": dt, "nodata": nd, "op": op, "dims": list(draw(st.permutations(["time", "y", "x"]))),
                 "robust": draw(st.booleans()), "gcls": g["gcls"]}
         if op == "whits":
@@ -378,6 +381,9 @@ def run(ctx):
             case["sr"] = draw(gens.srange(min_count=2 if op == "whitswcv" else 3, lo=-3.0, hi=4.0))
         if draw(st.booleans()):
             case["p"] = draw(gens.pvals)
+        if draw(st.booleans()):
+            # the array carries an unrelated nodata attribute; the smoothers use the nodata ARGUMENT (0 included)
+            case["attr_nodata"] = draw(st.sampled_from([-9999, 255, 7, line[idx[0]]]))
         return case
 
     def f_al(case):
@@ -431,3 +437,10 @@ def run(ctx):
     ctx.given("reverse", pair_case(sorted(smooth.REVERSIBLE), ctx.n(120, 200)), ctx.n(700, 10000), fn=f_rev)
     # the V-curve criteria must not treat the two ends of the series differently: large residuals at the first / last step
     ctx.given("reverse", pair_case(["optv", "optv", "optvp", "optvplc"], ctx.n(60, 200), classes=["edge_outlier"], fine_srange=True), ctx.n(600, 6000), fn=f_rev)
+
+
+from harness import history as _history  # noqa: E402
+
+_history.install(sys.modules[__name__], {"whits": _history.q_whits, "whitsvc": _history.q_whitsvc, "whitswcv": _history.q_whitswcv},
+                 {"whits": _history.WHITS_ARGS, "whitsvc": _history.WHITSVC_ARGS, "whitswcv": _history.WHITSWCV_ARGS}, n=(120, 1500), dtypes=("int16", "float64"),
+                 attr_values=(-3000, 0, -9999), cells=_history.NDVI_CELLS, dims=(("time", "y", "x"), ("y", "time", "x"), ("y", "x", "time")))
